@@ -6,6 +6,9 @@ Import Inb.
 Definition ans_of_kind (k : bkind) : answer :=
   match k with KOk => AOk | KFail => AFailBody | KCan => ACanBody end.
 
+Definition is_panic (x : action) : bool :=
+  match x with Ans _ APanic | Wr _ WPanic => true | _ => false end.
+
 Section Inv.
 Variable reqs : list req.
 Notation rq := (Inb.rq reqs).
@@ -13,19 +16,23 @@ Notation exists_b := (Inb.exists_b reqs).
 Notation step := (Inb.step fixed reqs).
 
 
-Definition lead_pc (p : pc) : bool := match p with PStart | PY1 | PWait => false | _ => true end.
-Definition in_tbl_pc (p : pc) : bool := match p with PWork | PDelete | PFDelete => true | _ => false end.
-Definition open_pc (p : pc) : bool := match p with PStart | PY1 | PWait | PDone => false | _ => true end.
+Definition lead_pc (p : pc) : bool := match p with PStart | PY1 | PWait | PFWrite => false | _ => true end.
+Definition in_tbl_pc (p : pc) : bool :=
+  match p with PWork | PWrite | PDelete | PFDelete | PADelete => true | _ => false end.
+Definition open_pc (p : pc) : bool := match p with PStart | PY1 | PWait | PFWrite | PDone => false | _ => true end.
 Definition nodata_pc (p : pc) : bool :=
-  match p with PWork | PDelete | PHasF | PCopy | PFDelete | PFErr | PFClose => true | _ => false end.
+  match p with PWork | PWrite | PDelete | PHasF | PCopy | PFDelete | PFErr | PFClose | PADelete | PAClose => true
+  | _ => false end.
 Definition noerr_pc (p : pc) : bool :=
-  match p with PWork | PDelete | PHasF | PCopy | PClose | PFDelete | PFErr => true | _ => false end.
-Definition foll_pc (p : pc) : bool := match p with PY1 | PWait | PDone => true | _ => false end.
-Definition noref_pc (p : pc) : bool := match p with PStart | PWork | PDone => true | _ => false end.
+  match p with PWork | PWrite | PDelete | PHasF | PCopy | PClose | PFDelete | PFErr | PADelete | PAClose => true
+  | _ => false end.
+Definition foll_pc (p : pc) : bool := match p with PY1 | PWait | PFWrite | PDone => true | _ => false end.
+Definition noref_pc (p : pc) : bool := match p with PStart | PWork | PWrite | PDone => true | _ => false end.
 Definition post_pc (p : pc) : bool := match p with PDelete | PHasF | PCopy | PClose => true | _ => false end.
 Definition ferr_pc (p : pc) : bool := match p with PFDelete | PFErr | PFClose => true | _ => false end.
 Definition data_pc (p : pc) : bool := match p with PClose | PDone => true | _ => false end.
-Definition run_pc (p : pc) : bool := match p with PStart | PY1 | PWait | PWork => true | _ => false end.
+Definition run_pc (p : pc) : bool :=
+  match p with PStart | PY1 | PWait | PWork | PWrite | PFWrite => true | _ => false end.
 
 Record Inv (s : state) : Prop := {
   c_absent : forall i, exists_b i = false -> act s i = actor0;
@@ -66,6 +73,16 @@ Record Inv (s : state) : Prop := {
   c_out_up : forall i a, a_out (act s i) = Some (OErr (EUp a)) ->
       (a = i /\ a_ans (act s i) = Some AErrUp) \/
       (a <> i /\ a_ref (act s i) = Some a /\ e_err (ent s a) = Some (EUp a) /\ a_pc (act s i) = PDone);
+  (* the body the caller is about to hand to its own writer is the one its own work produced *)
+  c_write : forall i, a_pc (act s i) = PWrite ->
+      a_res (act s i) = body (rq i) (a_kind (act s i)) /\
+      (a_kind (act s i) = KCan -> a_cancel (act s i) = true) /\
+      a_ans (act s i) = Some (ans_of_kind (a_kind (act s i)));
+  (* ... resp. the Data of the request it followed *)
+  c_fwrite : forall i j, a_pc (act s i) = PFWrite -> a_ref (act s i) = Some j ->
+      j <> i /\ e_data (ent s j) = Some (a_kind (act s i), a_res (act s i));
+  c_out_crash : forall i f, a_out (act s i) = Some (OCrash f) ->
+      f = None /\ (a_ans (act s i) = Some APanic \/ a_wr (act s i) = Some WPanic);
   c_run : forall i, run_pc (a_pc (act s i)) = true -> a_out (act s i) = None;
   c_nrun : forall i, run_pc (a_pc (act s i)) = false -> a_out (act s i) <> None;
   c_start : forall i, a_pc (act s i) = PStart -> a_ref (act s i) = None
@@ -81,8 +98,8 @@ End Inv.
 (* ---- automation ---- *)
 Ltac simp :=
   cbn [act ent tbl with_act with_ent with_tbl
-       a_pc a_ref a_cancel a_kind a_res a_perr a_hasf a_out a_ans
-       set_pc set_ref set_cancel set_work set_perr set_hasf set_out set_ans
+       a_pc a_ref a_cancel a_kind a_res a_perr a_hasf a_out a_ans a_wr
+       set_pc set_ref set_cancel set_work set_perr set_hasf set_out set_ans set_wr
        e_done e_data e_err e_fc e_close e_set_data e_set_err e_add] in *.
 
 Ltac upd1 :=
@@ -114,6 +131,9 @@ Ltac fwd_light HI :=
   | H : a_out (act _ ?i) = Some (OWrote ?k ?d (Some ?j)) |- _ => learn (c_out_sh _ _ HI i k d j H)
   | H : a_out (act _ ?i) = Some (OErr (ECtx ?a)) |- _ => learn (c_out_ctx _ _ HI i a H)
   | H : a_out (act _ ?i) = Some (OErr (EUp ?a)) |- _ => learn (c_out_up _ _ HI i a H)
+  | H : a_out (act _ ?i) = Some (OCrash ?f) |- _ => learn (c_out_crash _ _ HI i f H)
+  | P : a_pc (act _ ?i) = PFWrite, H : a_ref (act _ ?i) = Some ?j |- _ => learn (c_fwrite _ _ HI i j P H)
+  | P : a_pc (act _ ?i) = PWrite |- _ => learn (c_write _ _ HI i P)
   | H : a_ref (act _ ?i) = Some ?i |- _ => learn (c_lead _ _ HI i H)
   | H : a_ref (act _ ?i) = Some ?j, N : ?j <> ?i |- _ => learn (c_foll _ _ HI i j H N)
   | H : a_ref (act _ ?i) = None |- _ => learn (c_noref _ _ HI i H)
@@ -155,7 +175,7 @@ Ltac rw_ent :=
   repeat match goal with
   | H : ent ?s ?i = entry0 |- _ => rewrite H in *
   | H : act ?s ?i = actor0 |- _ => rewrite H in *
-  end; cbn [e_done e_data e_err e_fc entry0 a_pc a_ref a_cancel a_out a_ans actor0] in *.
+  end; cbn [e_done e_data e_err e_fc entry0 a_pc a_ref a_cancel a_out a_ans a_wr actor0] in *.
 
 Ltac classes :=
   cbn [lead_pc in_tbl_pc open_pc nodata_pc noerr_pc foll_pc noref_pc post_pc ferr_pc data_pc run_pc] in *.
